@@ -67,6 +67,11 @@ func ParseDecimal(b []byte) (float64, int) {
 	} else if -22 <= exp && exp < 0 { // int / 10^k
 		return f / float64pow10[-exp], i
 	}
+	for exp < -290 && f != 0.0 {
+		// math.Pow10 is subnormal (and thus imprecise) below 1e-307 and zero below 1e-323
+		f *= 1e-290
+		exp += 290
+	}
 	return f * math.Pow10(exp), i
 }
 
